@@ -144,4 +144,211 @@ theorem wp_exec_post (I Q : St Obj → Prop) (s : St Obj)
     Q (exec s prog none).st ∧ (exec s prog none).error = false :=
   wp_go_post I Q prog s 0 h
 
+/-! ## `wpe`: checks may fail
+
+`wpe I G prog Q s`: `I` holds before every step (mutation *or* check), so a kill or a failing check
+leaves a state satisfying `I`; if the proposition `G` holds then every check passes; `Q` holds at
+the end of a run in which every check passed. -/
+
+def wpe (I : St Obj → Prop) (G : Prop) : List (Step Obj (St Obj)) → (St Obj → Prop) → St Obj → Prop
+  | [], Q, s => Q s
+  | .check p :: rest, Q, s => I s ∧ (G → p s = true) ∧ (p s = true → wpe I G rest Q s)
+  | .set o v :: rest, Q, s => I s ∧ wpe I G rest Q (upd s o v)
+  | .move ps :: rest, Q, s => I s ∧ wpe I G rest Q (applyMove s ps)
+
+theorem wpe_append (I : St Obj → Prop) (G : Prop) (p q : List (Step Obj (St Obj))) (Q : St Obj → Prop)
+    (s : St Obj) : wpe I G (p ++ q) Q s ↔ wpe I G p (wpe I G q Q) s := by
+  induction p generalizing s with
+  | nil => simp [wpe]
+  | cons a p ih =>
+    cases a with
+    | set o v => simp [wpe, ih]
+    | move ps => simp [wpe, ih]
+    | check c => simp [wpe, ih]
+
+theorem wpe_mono (I : St Obj → Prop) (G : Prop) (p : List (Step Obj (St Obj))) (Q Q' : St Obj → Prop)
+    (h : ∀ s, Q s → Q' s) (s : St Obj) : wpe I G p Q s → wpe I G p Q' s := by
+  induction p generalizing s with
+  | nil => exact h s
+  | cons a p ih =>
+    cases a with
+    | set o v => exact fun ⟨h1, h2⟩ => ⟨h1, ih _ h2⟩
+    | move ps => exact fun ⟨h1, h2⟩ => ⟨h1, ih _ h2⟩
+    | check c => exact fun ⟨h1, h2, h3⟩ => ⟨h1, h2, fun hc => ih _ (h3 hc)⟩
+
+theorem wpe_seq (I : St Obj → Prop) (G : Prop) (p q : List (Step Obj (St Obj))) (M Q : St Obj → Prop)
+    (s : St Obj) (hp : wpe I G p M s) (hq : ∀ s, M s → wpe I G q Q s) : wpe I G (p ++ q) Q s :=
+  (wpe_append I G p q Q s).2 (wpe_mono I G p M _ hq s hp)
+
+theorem wpe_flatMap {α : Type} (I : St Obj → Prop) (G : Prop) (f : α → List (Step Obj (St Obj)))
+    (J : List α → St Obj → Prop) (l : List α)
+    (hJ : ∀ pre x post, l = pre ++ x :: post → ∀ s, J pre s → wpe I G (f x) (J (pre ++ [x])) s) :
+    ∀ s, J [] s → wpe I G (l.flatMap f) (J l) s := by
+  suffices H : ∀ (l' pre : List α), l = pre ++ l' → ∀ s, J pre s →
+      wpe I G (l'.flatMap f) (J (pre ++ l')) s by
+    intro s h
+    simpa using H l [] (by simp) s h
+  intro l'
+  induction l' with
+  | nil => intro pre _ s h; simpa [wpe] using h
+  | cons x l' ih =>
+    intro pre e s h
+    rw [List.flatMap_cons]
+    refine wpe_seq I G _ _ (J (pre ++ [x])) _ s (hJ pre x l' e s h) ?_
+    intro s' h'
+    have := ih (pre ++ [x]) (by simp [e]) s' h'
+    simpa using this
+
+theorem wpe_map {α : Type} (I : St Obj → Prop) (G : Prop) (f : α → Step Obj (St Obj))
+    (J : List α → St Obj → Prop) (l : List α)
+    (hJ : ∀ pre x post, l = pre ++ x :: post → ∀ s, J pre s → wpe I G [f x] (J (pre ++ [x])) s) :
+    ∀ s, J [] s → wpe I G (l.map f) (J l) s := by
+  have : ∀ l : List α, l.map f = l.flatMap (fun x => [f x]) := by
+    intro l
+    induction l with
+    | nil => rfl
+    | cons x l ih => simp [List.flatMap_cons, ih]
+  rw [this]
+  exact wpe_flatMap I G (fun x => [f x]) J l hJ
+
+theorem wpe_go_inv (I : St Obj → Prop) (G : Prop) (Q : St Obj → Prop) (hQ : ∀ s, Q s → I s)
+    (fuel : Option Nat) (prog : List (Step Obj (St Obj))) :
+    ∀ (s : St Obj) (n : Nat), wpe I G prog Q s → I (exec.go fuel s n prog).st := by
+  induction prog with
+  | nil => intro s n h; exact hQ s h
+  | cons a p ih =>
+    intro s n h
+    cases a with
+    | set o v =>
+      simp only [exec.go]
+      split
+      · exact h.1
+      · exact ih _ _ h.2
+    | move ps =>
+      simp only [exec.go]
+      split
+      · exact h.1
+      · exact ih _ _ h.2
+    | check c =>
+      simp only [exec.go]
+      split
+      · rename_i hc; exact ih _ _ (h.2.2 hc)
+      · exact h.1
+
+theorem wpe_go_post (I : St Obj → Prop) (G : Prop) (Q : St Obj → Prop)
+    (prog : List (Step Obj (St Obj))) :
+    ∀ (s : St Obj) (n : Nat), wpe I G prog Q s →
+      (G → (exec.go none s n prog).error = false) ∧
+      ((exec.go none s n prog).error = false → Q (exec.go none s n prog).st) := by
+  induction prog with
+  | nil => intro s n h; exact ⟨fun _ => rfl, fun _ => h⟩
+  | cons a p ih =>
+    intro s n h
+    cases a with
+    | set o v =>
+      simp only [exec.go]
+      rw [if_neg (by simp)]
+      exact ih _ _ h.2
+    | move ps =>
+      simp only [exec.go]
+      rw [if_neg (by simp)]
+      exact ih _ _ h.2
+    | check c =>
+      simp only [exec.go]
+      split
+      · rename_i hc; exact ih _ _ (h.2.2 hc)
+      · rename_i hc
+        exact ⟨fun g => absurd (h.2.1 g) hc, fun e => by simp at e⟩
+
+/-- every kill point and every failing check leaves a state satisfying `I` -/
+theorem wpe_exec_inv (I : St Obj → Prop) (G : Prop) (Q : St Obj → Prop) (hQ : ∀ s, Q s → I s)
+    (s : St Obj) (prog : List (Step Obj (St Obj))) (fuel : Option Nat) (h : wpe I G prog Q s) :
+    I (exec s prog fuel).st :=
+  wpe_go_inv I G Q hQ fuel prog s 0 h
+
+/-- complete runs: under `G` no check fails; a run without error ends in `Q` -/
+theorem wpe_exec_post (I : St Obj → Prop) (G : Prop) (Q : St Obj → Prop) (s : St Obj)
+    (prog : List (Step Obj (St Obj))) (h : wpe I G prog Q s) :
+    (G → (exec s prog none).error = false) ∧
+    ((exec s prog none).error = false → Q (exec s prog none).st) :=
+  wpe_go_post I G Q prog s 0 h
+
+/-! ## `applyMove` -/
+
+theorem applyMove_single (s : St Obj) (a b x : Obj) :
+    applyMove s [(a, b)] x = if b = x then s a else if a = x then V.absent else s x := by
+  simp only [applyMove, List.find?_cons, List.find?_nil, List.any_cons, List.any_nil, Bool.or_false]
+  by_cases h : b = x <;> simp [h]
+
+theorem applyMove_not_target (s : St Obj) (ps : List (Obj × Obj)) (x : Obj)
+    (h : ∀ p ∈ ps, p.2 ≠ x) :
+    applyMove s ps x = if ps.any (fun p => p.1 = x) then V.absent else s x := by
+  have : ps.find? (fun p => p.2 = x) = none := by
+    rw [List.find?_eq_none]
+    intro p hp; simpa using h p hp
+  simp only [applyMove, this]
+
+theorem applyMove_other (s : St Obj) (ps : List (Obj × Obj)) (x : Obj)
+    (h : ∀ p ∈ ps, p.2 ≠ x) (h' : ∀ p ∈ ps, p.1 ≠ x) : applyMove s ps x = s x := by
+  rw [applyMove_not_target s ps x h, if_neg]
+  simp only [List.any_eq_true, decide_eq_true_eq, not_exists, not_and]
+  exact h'
+
+theorem applyMove_source (s : St Obj) (ps : List (Obj × Obj)) (x : Obj)
+    (h : ∀ p ∈ ps, p.2 ≠ x) (h' : ∃ p ∈ ps, p.1 = x) : applyMove s ps x = V.absent := by
+  rw [applyMove_not_target s ps x h, if_pos]
+  simp only [List.any_eq_true, decide_eq_true_eq]
+  exact h'
+
+theorem applyMove_target (s : St Obj) (ps : List (Obj × Obj)) (x : Obj)
+    (h : ∃ p ∈ ps, p.2 = x) : ∃ p ∈ ps, p.2 = x ∧ applyMove s ps x = s p.1 := by
+  cases hf : ps.find? (fun p => p.2 = x) with
+  | none =>
+    rw [List.find?_eq_none] at hf
+    obtain ⟨p, hp, e⟩ := h
+    exact absurd (by simpa using e) (hf p hp)
+  | some p =>
+    refine ⟨p, List.mem_of_find?_eq_some hf, by simpa using List.find?_some hf, ?_⟩
+    simp only [applyMove, hf]
+
+/-- the atomic rename of a directory `A → B` carrying the objects `f r → g r`, `r ∈ l` -/
+theorem applyMove_dir {ρ : Type} (s : St Obj) (A B : Obj) (f g : ρ → Obj) (l : List ρ)
+    (hB : ∀ r, g r ≠ B) (hg : ∀ r r', g r = g r' → r = r') :
+    applyMove s ((A, B) :: l.map (fun r => (f r, g r))) B = s A ∧
+    (∀ r ∈ l, applyMove s ((A, B) :: l.map (fun r => (f r, g r))) (g r) = s (f r)) ∧
+    (∀ x, x ≠ B → (∀ r ∈ l, x ≠ g r) →
+      applyMove s ((A, B) :: l.map (fun r => (f r, g r))) x =
+        if x = A ∨ ∃ r ∈ l, x = f r then V.absent else s x) := by
+  refine ⟨?_, ?_, ?_⟩
+  · simp [applyMove]
+  · intro r hr
+    obtain ⟨p, hp, e, hv⟩ := applyMove_target s ((A, B) :: l.map (fun r => (f r, g r))) (g r)
+      ⟨(f r, g r), by simp; exact Or.inr ⟨r, hr, rfl, rfl⟩, rfl⟩
+    rw [hv]
+    rcases List.mem_cons.1 hp with rfl | hp
+    · exact absurd e.symm (hB r)
+    · obtain ⟨r', _, rfl⟩ := List.mem_map.1 hp
+      rw [hg r' r e]
+  · intro x hxB hxg
+    rw [applyMove_not_target]
+    · by_cases hc : x = A ∨ ∃ r ∈ l, x = f r
+      · rw [if_pos hc, if_pos]
+        simp only [List.any_eq_true, decide_eq_true_eq]
+        rcases hc with rfl | ⟨r, hr, rfl⟩
+        · exact ⟨_, List.mem_cons_self .., rfl⟩
+        · exact ⟨(f r, g r), List.mem_cons_of_mem _ (List.mem_map.2 ⟨r, hr, rfl⟩), rfl⟩
+      · rw [if_neg hc, if_neg]
+        simp only [List.any_eq_true, decide_eq_true_eq, not_exists, not_and]
+        intro p hp e
+        apply hc
+        rcases List.mem_cons.1 hp with rfl | hp
+        · exact Or.inl e.symm
+        · obtain ⟨r', hr', rfl⟩ := List.mem_map.1 hp
+          exact Or.inr ⟨r', hr', e.symm⟩
+    · intro p hp e
+      rcases List.mem_cons.1 hp with rfl | hp
+      · exact hxB e.symm
+      · obtain ⟨r', hr', rfl⟩ := List.mem_map.1 hp
+        exact hxg r' hr' e.symm
+
 end B2Z.Fs
